@@ -89,6 +89,7 @@ type sim struct {
 	regHA        map[*tickRec][]string
 	lastSwitchAt map[*tickRec]string
 	stateLoops   atomic.Int64
+	lockEvents   []lockEvent
 	traceFrom    int
 	ackerWindow  bool
 }
@@ -117,6 +118,33 @@ func simRegisterDial() {
 			return s.w.Dial(ctx, p.id, hn)
 		})
 	})
+}
+
+// tracingDCS records every answer the coordination layer gives to AcquireLock (the field
+// app.dcs is an interface, so the real zkDCS is wrapped, not changed).
+type tracingDCS struct {
+	dcs.DCS
+	s    *sim
+	proc string
+}
+
+type lockEvent struct {
+	proc string
+	at   time.Time
+	ok   bool
+	stmt int // length of the statement log when the answer was given
+	mut  int // length of the ZooKeeper mutation log
+}
+
+func (t *tracingDCS) AcquireLock(path string) bool {
+	ok := t.DCS.AcquireLock(path)
+	if path == pathManagerLock {
+		ev := lockEvent{t.proc, time.Now(), ok, t.s.w.StmtLen(), t.s.zk.MutLen()}
+		t.s.mu.Lock()
+		t.s.lockEvents = append(t.s.lockEvents, ev)
+		t.s.mu.Unlock()
+	}
+	return ok
 }
 
 type nopLogger struct{}
@@ -284,9 +312,10 @@ func (s *sim) startProc(host string) *simProc {
 	if err != nil {
 		s.t.Fatalf("dcs: %v", err)
 	}
-	a.dcs = d
-	a.appDCS = NewAppDCS(d, cfg, &lg)
-	a.cluster, err = mysql.NewCluster(cfg, &lg, d)
+	td := &tracingDCS{DCS: d, s: s, proc: id}
+	a.dcs = td
+	a.appDCS = NewAppDCS(td, cfg, &lg)
+	a.cluster, err = mysql.NewCluster(cfg, &lg, td)
 	if err != nil {
 		s.t.Fatalf("cluster: %v", err)
 	}
